@@ -20,10 +20,13 @@
 #include <cstring>
 #include <iostream>
 #include <map>
+#include <set>
 #include <sstream>
 #include <stdexcept>
 #include <string>
 #include <vector>
+#include <type_traits>
+#include <alloca.h>
 #include <fcntl.h>
 #include <signal.h>
 #include <sys/mman.h>
@@ -165,6 +168,138 @@ struct Elem
   long dec() const { long v = b[0]; for (size_t i = 0; i < S; ++i) if (b[i] != (unsigned char)(v * (long)(i + 1) + (long)i * 3)) return -1; return v; }
   bool operator==(const Elem &o) const { return memcmp(b, o.b, S) == 0; }
 };
+
+// ---- element types that are NOT trivially copyable (all of them standard-layout): an allocator whose
+// construct()/destroy() do anything other than copy-construct / destroy in place breaks them
+struct SElem   // std::string, short (in-object buffer) for v < 128 and long (heap buffer) otherwise
+{
+  std::string s;
+  static SElem enc(long v)
+  {
+    SElem e;
+    e.s = std::string(v < 128 ? 1 + v % 10 : 40 + v % 17, (char)('a' + v % 26)) + "#" + std::to_string(v);
+    return e;
+  }
+  long dec() const
+  {
+    size_t h = s.rfind('#');
+    if (h == std::string::npos) return -1;
+    long v = strtol(s.c_str() + h + 1, nullptr, 10);
+    return enc(v).s == s ? v : -1;
+  }
+  bool operator==(const SElem &o) const { return s == o.s; }
+};
+struct VElem   // std::vector<int>
+{
+  std::vector<int> d;
+  static VElem enc(long v) { VElem e; for (long i = 0; i < 1 + v % 5; ++i) e.d.push_back((int)(v * (i + 1))); return e; }
+  long dec() const { if (d.empty()) return -1; long v = d[0]; return enc(v).d == d ? v : -1; }
+  bool operator==(const VElem &o) const { return d == o.d; }
+};
+// lifetime-instrumented element: registry of live object addresses, a pointer to itself that the copy
+// constructor must set; every object must be constructed exactly once and destroyed exactly once
+struct Inst
+{
+  long val;
+  const Inst *self;
+  static std::set<const Inst *> &live() { static std::set<const Inst *> l; return l; }
+  static long &constructed() { static long c = 0; return c; }
+  static long &destroyed() { static long d = 0; return d; }
+  static std::vector<std::string> &errors() { static std::vector<std::string> e; return e; }
+  static void err(const char *w) { if (errors().size() < 4) errors().push_back(std::string("!LIFETIME(") + w + ")"); }
+  void born() { if (!live().insert(this).second) err("constructed twice at one address"); ++constructed(); }
+  bool ok() const { return live().count(this) && self == this; }
+  explicit Inst(long v) : val(v), self(this) { born(); }
+  Inst(const Inst &o) : val(o.val), self(this) { if (!o.ok()) err("copy from an object that was never constructed"); born(); }
+  Inst &operator=(const Inst &o)
+  {
+    if (!ok()) err("assignment to an object that was never constructed");
+    if (!o.ok()) err("assignment from an object that was never constructed");
+    val = o.val;
+    return *this;
+  }
+  ~Inst()
+  {
+    if (self != this) err("self pointer not fixed by copy construction");
+    if (!live().erase(this)) err("destroyed an object that was never constructed / destroyed twice");
+    ++destroyed();
+  }
+  static Inst enc(long v) { return Inst(v); }
+  long dec() const { return ok() ? val : -1; }
+  bool operator==(const Inst &o) const { return val == o.val; }
+};
+
+// ------------------------------------------------------------------ T: the typed overload alignedMalloc<T>(n, align)
+template <typename T>
+static std::string runT(uint64_t n, uint64_t align, const std::string &ans)
+{
+  std::ostringstream o;
+#ifdef C14_SPY
+  spy_reset(-1); spy_scripted = true; spy_calls = 0;
+  spy_answer = ans == "none" ? nullptr : (void *)(uintptr_t)u64(ans);
+  T *p = rkcommon::memory::alignedMalloc<T>((size_t)n, (size_t)align);
+  if (!p) o << "null"; else o << "ptr=" << (uint64_t)(uintptr_t)p;
+  if (spy_calls) o << " req=" << spy_req_size << "," << spy_req_align;
+  if (spy_calls != 1) o << " !CALLS=" << spy_calls;
+  spy_scripted = false;
+#else
+  (void)ans;
+  T *p = rkcommon::memory::alignedMalloc<T>((size_t)n, (size_t)align);
+  if (!p) o << "null";
+  else {
+    o << (((uintptr_t)p % (uintptr_t)align) == 0 ? "ptr=ok" : "ptr=MIS");
+    if (n <= (1ull << 24) / sizeof(T)) {        // usable for the full extent n*sizeof(T)
+      unsigned char *b = (unsigned char *)p;
+      for (size_t k = 0; k < (size_t)n * sizeof(T); ++k) b[k] = (unsigned char)(k * 7 + 3);
+      for (size_t k = 0; k < (size_t)n * sizeof(T); ++k) if (b[k] != (unsigned char)(k * 7 + 3)) { o << " !PATTERN"; break; }
+    }
+    rkcommon::memory::alignedFree(p);
+  }
+#endif
+  return o.str();
+}
+static std::string dispatchT(const std::string &tag, uint64_t n, uint64_t align, const std::string &ans)
+{
+  if (tag == "1") return runT<unsigned char>(n, align, ans);
+  if (tag == "4") return runT<int>(n, align, ans);
+  if (tag == "8") return runT<double>(n, align, ans);
+  if (tag == "12") return runT<Elem<12> >(n, align, ans);
+  if (tag == "72") return runT<Elem<72> >(n, align, ans);
+  return "bad-type";
+}
+
+// ------------------------------------------------------------------ A: the remaining members of aligned_allocator
+static std::string runA()
+{
+  std::ostringstream o;
+  spy_reset(-1);
+  aligned_allocator<int> a;
+  aligned_allocator<double> d;
+  aligned_allocator<int> conv(d);            // converting constructor
+  aligned_allocator<int> copy(a);
+  int x = 1; const int cx = 2;
+  o << "addr=" << (a.address(x) == &x && a.address(cx) == &cx && conv.address(x) == &x);
+  o << " eq=" << (a == copy) << " ne=" << (a != copy);
+  o << " rebind=" << std::is_same<aligned_allocator<int>::rebind<double>::other, aligned_allocator<double> >::value;
+  o << " max=" << (a.max_size() == (size_t)-1 / sizeof(int) && d.max_size() == (size_t)-1 / sizeof(double));
+  try {
+    int *p = a.allocate(3, (const double *)nullptr);     // allocate with a hint
+    o << " hint=" << (p && (uintptr_t)p % 64 == 0 ? "ok" : "BAD");
+    if (p) { p[0] = 1; p[2] = 3; }
+    copy.deallocate(p, 3);                                // storage allocated from one can be released by an equal one
+  } catch (...) { o << " hint=throw"; }
+  try { a.allocate(a.max_size() + 1, (const double *)nullptr); o << " hint_len=none"; }
+  catch (const std::length_error &) { o << " hint_len=length_error"; }
+  catch (...) { o << " hint_len=other"; }
+  int *sb = STACK_BUFFER(int, 8);
+  sb[0] = 5; sb[7] = 6;
+  o << " stack=" << (sb != nullptr && sb[0] + sb[7] == 11);
+#ifdef C14_SPY
+  if (!spy_live.empty()) o << " !LEAK(" << spy_live.size() << ")";
+  for (auto &e : spy_errors) o << " " << e;
+#endif
+  return o.str();
+}
 
 // ------------------------------------------------------------------ G: allocate()
 template <size_t S, int A>
@@ -324,10 +459,9 @@ static std::string runH(long fail, const std::vector<std::string> &ops)
 }
 
 // ------------------------------------------------------------------ V: AlignedVector
-template <size_t S>
-static std::string runV(long fail, const std::vector<std::string> &ops)
+template <typename T>
+static std::string runVT(long fail, const std::vector<std::string> &ops)
 {
-  typedef Elem<S> T;
   std::ostringstream out;
   spy_reset(fail);
   {
@@ -374,12 +508,31 @@ static std::string runV(long fail, const std::vector<std::string> &ops)
       out << "]";
       for (auto &e : spy_errors) out << e;
 #endif
+      for (auto &e : Inst::errors()) out << e;
+      Inst::errors().clear();
     }
   }
 #ifdef C14_SPY
   if (!spy_live.empty()) out << " !LEAK(" << spy_live.size() << ")";
 #endif
+  // element lifetimes (instrumented element type only): everything constructed has been destroyed, once
+  for (auto &e : Inst::errors()) out << " " << e;
+  Inst::errors().clear();
+  if (!Inst::live().empty() || Inst::constructed() != Inst::destroyed())
+    out << " !LIFETIME(constructed " << Inst::constructed() << " destroyed " << Inst::destroyed() << " still live " << Inst::live().size() << ")";
+  Inst::live().clear(); Inst::constructed() = 0; Inst::destroyed() = 0;
   return out.str();
+}
+template <size_t S>
+static std::string runV(long fail, const std::vector<std::string> &ops) { return runVT<Elem<S> >(fail, ops); }
+// W: AlignedVector of a non-trivially-copyable element type
+static std::string dispatchW(const std::string &tag, long fail, const std::vector<std::string> &ops)
+{
+  std::string pre;
+  if (tag == "s") { if (sizeof(SElem) != 32) pre = "!SIZEOF "; return pre + runVT<SElem>(fail, ops); }
+  if (tag == "v") { if (sizeof(VElem) != 24) pre = "!SIZEOF "; return pre + runVT<VElem>(fail, ops); }
+  if (tag == "i") { if (sizeof(Inst) != 16) pre = "!SIZEOF "; return pre + runVT<Inst>(fail, ops); }
+  return "bad-type";
 }
 
 static std::string dispatchV(uint64_t S, long fail, const std::vector<std::string> &ops)
@@ -420,6 +573,9 @@ int main()
       }
     } else if (t.size() == 2 && t[0] == "S") res = runS(u64(t[1]));
     else if (t.size() >= 2 && t[0] == "H") res = runH((long)i64(t[1]), std::vector<std::string>(t.begin() + 2, t.end()));
+    else if (t.size() == 1 && t[0] == "A") res = runA();
+    else if (t.size() == 5 && t[0] == "T") res = dispatchT(t[1], u64(t[2]), u64(t[3]), t[4]);
+    else if (t.size() >= 3 && t[0] == "W") res = dispatchW(t[1], (long)i64(t[2]), std::vector<std::string>(t.begin() + 3, t.end()));
     else if (t.size() >= 3 && t[0] == "V") res = dispatchV(u64(t[1]), (long)i64(t[2]), std::vector<std::string>(t.begin() + 3, t.end()));
     std::cout << res << std::endl;
   }
